@@ -22,7 +22,10 @@ CLAIMED['C02'] = {
     'text': 'proof: the model of translate_status / exit_values / the three reporters equals the documented table for every '
             'status, outcome, output mode and EVERY exit code of the action to check (C02_program_output_matches_doc etc., '
             'closed under the global context); regenerated-table obligations (C02_gen_*) re-tie the model to the running code '
-            'over its complete finite domains on every run; ~1270 end-to-end runs of real cases through MainProgram.execute.',
+            'over its complete finite domains on every run; ~1500 end-to-end runs of real cases through MainProgram.execute. Composition theorems '
+            '(Props/Compose.v, 18 statements): what the user sees (exit code, identifier, streams, kept sandbox) as the documented table applied to a declarative '
+            'function of the first failing step of the schedule, for every source, mode, keep flag; exit 0 iff (Normal mode) nothing failed; later steps cannot matter; '
+            '"exit 65 iff only validation ran" is refuted by witness in both directions and replaced by the statements that do hold.',
     'note': 'trusted: Coq kernel + vm_compute; tabulating translator harness/c02.py; the documented table in Spec/C02.v was typed '
             'in by hand from the property statement/README; INTERNAL_ERROR ending produced end to end through the recorded C08 finding (KeyError in cleanup).',
     'technique': 'Coq finite-table proof + tables regenerated from running code (vm_compute obligations) + end-to-end differential runs',
@@ -57,7 +60,9 @@ CLAIMED['C03'] = {
             'the validation block (act parse, symbol validation, pre-sds validation of any instruction of any phase incl. the last of [cleanup]), '
             'or of reading/preprocessing/parsing the whole file, leaves only validation events: no main step, no sandbox, no started action, and '
             'the verdict is that step\'s (C03_invalid_no_effect_partial, C03_access_error_no_execution, C03_syntax_error_anywhere, '
-            'C03_symbol_command_no_execution; closed under the global context). Tie: ~660 real cases per quick run: one defective real instruction of '
+            'C03_symbol_command_no_execution; closed under the global context). For the symbol-related defect classes the per-instruction gap is closed by '
+            'composition with the C08 model (Props/C03C08.v): whatever the symbol validator rejects (undefined, defined later, wrong type, duplicate, relativity via '
+            'symbols) is a VALIDATION_ERROR at the instruction it names with only validation events, no sandbox. Tie: ~660 real cases per quick run: one defective real instruction of '
             'every class at every phase x position in a template with marker side effects in every phase, plus defects in [act]/[conf], missing '
             'include, and the same through the symbol command; sandbox creation counted at the resolver.',
     'note': 'PARTIAL: that each real instruction reports each class of defect in a validation step rather than in main is per-instruction Python '
